@@ -249,6 +249,9 @@ namespace AIToolbox {
         const auto pointsN  = std::distance(pbegin, pend);
         const auto entriesN = std::distance(begin, end);
 
+        // Without Hyperplanes no Point can support one: they are all non-useful.
+        if (entriesN == 0) return pbegin;
+
         std::vector<std::pair<PIterator, double>> bestValues(entriesN, {pend, std::numeric_limits<double>::lowest()});
         const auto maxBound = pointsN < entriesN ? pend : pbegin + entriesN;
 
